@@ -27,7 +27,9 @@ Lemma fr_base : inv_base has_frame Q_fr.
 Proof.
   constructor; unfold sat, has_frame, Q_fr, same_frames, frame_names.
   - intros s k _ _ _. reflexivity.
-  - intros s k1 s1 k2 s2 Hk H1 H2 Hk2. rewrite (H2 Hk2). exact (H1 Hk).
+  - intros s k1 s1 k2 s2 Hk H1 H2 Hk2. rewrite (H2 Hk2). apply H1.
+    destruct k1; cbn in Hk; try contradiction; discriminate.
+  - intros s k s' _ C. congruence.
   - intros f s r s' HI H. prim_inv H s. fr_same.
   - intros A f s r s' HI H. prim_inv H s. fr_same.
   - intros name a s r s' HI H. prim_inv H s; [congruence|].
@@ -39,6 +41,7 @@ Proof.
   - intros a s r s' HI H. prim_inv H s. fr_same.
   - intros a s r s' HI H. prim_inv H s. fr_same.
   - intros b s r s' HI H. prim_inv H s. fr_same.
+  - intros t s r s' HI H. prim_inv H s. fr_same.
   - intros evs s r s' HI H. prim_inv H s. fr_same.
   - intros A e s r s' HI H. prim_inv H s. fr_same.
 Qed.
@@ -67,8 +70,10 @@ Proof.
         { intros Hnp. specialize (HQ3 Hnp). unfold same_frames in HQ3. rewrite Hn2 in HQ3.
           unfold frame_names in HQ3 at 1. rewrite Hf in HQ3. cbn [map] in HQ3.
           inversion HQ3. unfold frame_names at 1, s4. cbn [frames map]. congruence. }
-        destruct (Hh r0) as [[Hnp Hs] | [Hno He]].
-        -- destruct (Hs _ _ _ HI4 Hh4) as [HI5 HQ5]. split; [assumption|].
+        destruct (Hh r0) as [[Hsoft Hs] | [Hno He]].
+        -- assert (Hnp : kind_of r0 <> KPanic).
+           { destruct r0; cbn in Hsoft; try contradiction; discriminate. }
+           destruct (Hs _ _ _ HI4 Hh4) as [HI5 HQ5]. split; [assumption|].
            intros Hk5. unfold same_frames. rewrite (HQ5 Hk5). apply Hn4. assumption.
         -- rewrite He in Hh4. destruct (@reraise_spec A B r0 s4 Hno) as (r' & Hr & Hkd).
            rewrite Hr in Hh4. inversion Hh4; subst r' s'. split; [assumption|].
